@@ -209,6 +209,91 @@ def rule_stream_ids(ctx):
     ctx.ob(R, "stream lookup is checked", not idx and bool(gets), "the stream table is accessed with get() and a protocol error on miss" if not idx and gets else "the stream table is indexed directly by the peer-supplied stream id", p.loc())
 
 
+def _kind_switches(ctx, f):
+    """[(bb, {label: target})] switches over the numeric frame kind: scrutinee = Header::frame_kind(..).0"""
+    T = ctx.T(f)
+    out = []
+    for bb in range(len(f.blocks)):
+        si = T.switch_info(bb)
+        if si is None:
+            continue
+        scrut, edges = si
+        mask = ctx.F.consts.get(HDR + "::FrameKind::MASK", {}).get("v")
+        is_kind = any(x[0] == "call" and x[1] == HDR + "::Header::frame_kind" for x in subterms(scrut)) or \
+            (scrut[0] == "bin" and scrut[1] == "BitAnd" and mask is not None and ("const", mask) in (scrut[2], scrut[3]))
+        if is_kind:
+            lab = {}
+            for tgt, ls in edges.items():
+                for l in ls:
+                    lab[l] = tgt
+            out.append((bb, lab))
+    return out
+
+
+def rule_frame_kind_dispatch(ctx):
+    R = "C14.4"
+    ctx.rule(R, "frame-kind dispatch (sibling agreement): the frame kinds for which process_inbound_frames forwards a frame to a stream are explicit match values - never the catch-all - and are a subset of the kinds the stream reader (ReadStream::read_exact) handles without reaching its `unreachable!`; this is the guard the reviewed panic site in read_exact relies on")
+    f = ctx.body(MUX + "::process_inbound_frames")
+    T = ctx.T(f)
+    cfg = ctx.cfg(f)
+    sends = [c["bb"] for c in T.calls() if c["q"].endswith("UnboundedSender::send") and any(f.ty(i).s.endswith("reusable_stream::Frame") for i in c["t"]["f"].get("ga", []))]
+    ctx.floor(R, "frame hand-over sites in process_inbound_frames", len(sends), 2)
+    sw = _kind_switches(ctx, f)
+    if not sw:
+        ctx.note("C14.4: the dispatcher does not switch on the numeric frame kind (e.g. an if/else chain of == tests) - not decided")
+        ctx.ob(R, "dispatch switch", True, "undecided shape (not reported): no switch over Header::frame_kind(..).0", f.loc())
+        return
+    forwarded = set()
+    for bb, lab in sw:
+        for l, tgt in lab.items():
+            if set(sends) & cfg.reach_from([tgt], avoid_blocks=frozenset([bb])):
+                forwarded.add(l)
+    ok1 = "else" not in forwarded
+    ctx.ob(R, "unassigned kinds are not forwarded", ok1, "only explicit kind values %s lead to a frame hand-over; every other value is rejected" % sorted(x for x in forwarded if x != "else") if ok1 else
+           "a frame header with an unassigned frame kind (catch-all arm) is forwarded to a stream; the reader treats such a kind as unreachable and panics", f.loc())
+    # the reader side
+    rs = [g for g in ctx.F.fns if g.qname.endswith("transient_stream::ReadStream::read_exact") or (g.parent is not None and root_fn(g).qname.endswith("transient_stream::ReadStream::read_exact"))]
+    accepted = None
+    for g in rs:
+        Tg = ctx.T(g)
+        cg = ctx.cfg(g)
+        pan = [c["bb"] for c in Tg.calls() if c["q"] in ("std::panicking::panic", "std::panicking::panic_fmt")]
+        for bb, lab in _kind_switches(ctx, g):
+            accepted = set(l for l, tgt in lab.items() if not (set(pan) & cg.reach_from([tgt], avoid_blocks=frozenset([bb]))))
+    if accepted is None:
+        ctx.note("C14.4: the reader does not switch on the numeric frame kind - sibling comparison not decided")
+        ctx.ob(R, "forwarded kinds are handled by the reader", True, "undecided shape (not reported)", f.loc())
+        return
+    # payload presence: where the reader unwraps frame.data, the dispatcher built the frame with data: Some(..)
+    def data_variant(bb):
+        for x in subterms(T.call_term(f.blocks[bb]["t"])):
+            if x[0] == "agg" and x[1].endswith("reusable_stream::Frame"):
+                d = dict(x[3]).get("data")
+                if d is not None and d[0] == "agg" and d[1] == "std::option::Option":
+                    return d[2]
+        return None
+    sent_data = {}
+    for bb, lab in sw:
+        for l, tgt in lab.items():
+            r = cfg.reach_from([tgt], avoid_blocks=frozenset([bb]))
+            sent_data[l] = set(data_variant(b) for b in sends if b in r)
+    needs_data = set()
+    for g in rs:
+        Tg = ctx.T(g)
+        cg = ctx.cfg(g)
+        unw = [c["bb"] for c in Tg.calls() if c["q"] in ("std::option::Option::unwrap", "std::option::Option::expect") and any(x[0] == "field" and x[2] == "data" for x in subterms(Tg.args_of(c)[0]))]
+        for bb, lab in _kind_switches(ctx, g):
+            for l, tgt in lab.items():
+                if set(unw) & cg.reach_from([tgt], avoid_blocks=frozenset([bb])):
+                    needs_data.add(l)
+    badd = sorted(str(l) for l in needs_data if sent_data.get(l, set()) - {"Some"})
+    ctx.ob(R, "frames the reader unwraps carry data", not badd, "for kind(s) %s the reader unwraps frame.data and the dispatcher always builds Frame{data: Some(..)}" % sorted(map(str, needs_data)) if not badd else
+           "for frame kind(s) %s ReadStream::read_exact unwraps frame.data but process_inbound_frames can forward a frame without data" % badd, f.loc())
+    extra = sorted(str(x) for x in forwarded - accepted)
+    ctx.ob(R, "forwarded kinds are handled by the reader", not extra, "forwarded kinds %s are all handled by ReadStream::read_exact (%s)" % (sorted(map(str, forwarded)), sorted(map(str, accepted))) if not extra else
+           "process_inbound_frames forwards frame kind(s) %s that ReadStream::read_exact treats as unreachable" % extra, f.loc())
+
+
 def rule_drop_order(ctx):
     R = "C14.5"
     ctx.rule(R, "drop order: in Frame, `data` is declared before `_permit` (the buffer is freed before its permits are returned)")
@@ -327,5 +412,5 @@ def rule_casts(ctx):
     ctx.floor(R, "narrowing casts inventoried", sum(len(v) for v in found.values()), 4)
 
 
-RULES = [("C14.1", rule_permit_before_buffer), ("C14.2", rule_config), ("C14.3", rule_stream_ids), ("C14.5", rule_drop_order), ("C14.6", rule_one_transient),
+RULES = [("C14.1", rule_permit_before_buffer), ("C14.2", rule_config), ("C14.3", rule_stream_ids), ("C14.4", rule_frame_kind_dispatch), ("C14.5", rule_drop_order), ("C14.6", rule_one_transient),
          ("C14.7", rule_reader), ("C14.8", rule_casts)]
